@@ -24,7 +24,7 @@ def is_primitive(item):
     Returns:
         bool: Whether the item is a primitive value.
     """
-    return isinstance(item, (int, float, str, bool)) or item is None
+    return isinstance(item, (int, float, str, bool, bytes, complex)) or item is None or item is Ellipsis
 
 
 def _name_regex(name_id):
@@ -766,12 +766,17 @@ class StretchyTreeMatcher:
             # the children noting the special case when the nodes of the array are actually parameters of the node
             # (e.g. a load function) instead of a child node
             if not ignore_field:
+                # Lists of plain values (e.g., the names of a global statement) must match completely
+                if ins_value and all(is_primitive(v) for v in ins_value) and len(ins_value) != len(std_value):
+                    is_match = False
                 for inssub_value, stdsub_value in zip(ins_value, std_value):
                     if not is_match:
                         break
                     # TODO: make this a smarter comparison, maybe handle dictionaries, f-strings, tuples, etc.
                     if is_primitive(inssub_value):
-                        is_match = inssub_value == stdsub_value
+                        # 5, 5.0 and True are equal in Python but are different literals
+                        is_match = (type(inssub_value) is type(stdsub_value) and
+                                    inssub_value == stdsub_value)
         if is_match:
             mapping = AstMap()  # return MAPPING
             mapping.add_node_pairing(ins_node, std_node)
